@@ -50,42 +50,35 @@ Definition sizes_fit (o : dec_opts) (last : option decoded_picture) (r0 : reader
   forall f w h, (format hdr = Some f \/ exists lp, last = Some lp /\ d_format lp = f) ->
     into_width_and_height f = Some (w, h) -> 0 <= w <= 65535 /\ 0 <= h <= 65535.
 
+(* The proof does not name the join points of the generated term (they change with every restructuring of the source): every
+   lifted function is unfolded through the hint database the generator emits, then the proof splits on what the selection of
+   the options and of the format looks at, and finishes each case with the size facts. *)
+Ltac prologue_dims Hfit :=
+  cbn [bind]; cbv zeta; cbn [fst snd]; try reflexivity;
+  match goal with
+  | |- context [into_width_and_height ?fmt] =>
+      let w := fresh "w" in let h := fresh "h" in let Ewh := fresh "Ewh" in
+      destruct (into_width_and_height fmt) as [[w h]|] eqn:Ewh; [|reflexivity]; cbn [fst snd];
+      let Hw := fresh "Hw" in let Hh := fresh "Hh" in
+      destruct (Hfit fmt w h ltac:(first [ left; solve [eauto] | right; eexists; split; solve [eauto] ]) Ewh) as [Hw Hh];
+      replace ((w =? 0) || (h =? 0)) with ((w <=? 0) || (h <=? 0)) by lia;
+      destruct ((w <=? 0) || (h <=? 0)) eqn:?; [reflexivity|];
+      rewrite !ceil16_exact by lia;
+      rewrite (mul_c_ok Usize ((w + 15) / 16) 16) by (cbn [ilo ihi]; lia); cbn [bind];
+      rewrite (mul_c_ok Usize ((h + 15) / 16) 16) by (cbn [ilo ihi]; lia); cbn [bind]; reflexivity
+  end.
+
 Lemma bridge_p_prologue s r :
   sizes_fit (st_opts s) (get_last_picture s) r ->
   p_prologue s r = model_prologue (st_opts s) (get_last_picture s) (running_options s) r.
 Proof.
-  intros Hfit. unfold p_prologue, model_prologue.
+  intros Hfit. unfold p_prologue, model_prologue. autounfold with pgenstate.
   destruct (decode_picture (st_opts s) _ r) as [[[hdr|] r1]| | |] eqn:Ed; cbn [bind]; try reflexivity.
-  specialize (Hfit hdr r1 Ed). cbv zeta.
-  assert (Hk7 : forall fmt, (format hdr = Some fmt \/ exists lp, get_last_picture s = Some lp /\ d_format lp = fmt) ->
-    p_prologue_k7 s hdr
-      (if has_plusptype hdr && has_opptype hdr then options hdr
-       else if has_plusptype hdr then Z.lor (Z.ldiff (options hdr) opptype_options) (Z.land (running_options s) opptype_options)
-       else Z.lor (Z.ldiff (Z.ldiff (options hdr) opptype_options) mpptype_options) (Z.land (running_options s) (Z.lor opptype_options mpptype_options)))
-      r1 fmt =
-    match into_width_and_height fmt with
-    | None => Err EPictureFormatInvalid
-    | Some (w, h) =>
-        if (w <=? 0) || (h <=? 0) then Err EPictureFormatInvalid else
-        Ok ((hdr, (if has_plusptype hdr && has_opptype hdr then options hdr
-       else if has_plusptype hdr then Z.lor (Z.ldiff (options hdr) opptype_options) (Z.land (running_options s) opptype_options)
-       else Z.lor (Z.ldiff (Z.ldiff (options hdr) opptype_options) mpptype_options) (Z.land (running_options s) (Z.lor opptype_options mpptype_options))),
-             fmt, (w, h), (w + 15) / 16, (h + 15) / 16, ((w + 15) / 16 * 16, (h + 15) / 16 * 16)), r1)
-    end).
-  { intros fmt Hsel. unfold p_prologue_k7, p_prologue_k22. cbv zeta.
-    destruct (into_width_and_height fmt) as [[w h]|] eqn:Ewh; [|reflexivity]. cbn [fst snd].
-    destruct (Hfit fmt w h Hsel Ewh) as [Hw Hh].
-    replace ((w =? 0) || (h =? 0)) with ((w <=? 0) || (h <=? 0)) by lia.
-    destruct ((w <=? 0) || (h <=? 0)) eqn:Ez; [reflexivity|].
-    rewrite !ceil16_exact by lia.
-    rewrite (mul_c_ok Usize ((w + 15) / 16) 16) by (cbn [ilo ihi]; lia). cbn [bind].
-    rewrite (mul_c_ok Usize ((h + 15) / 16) 16) by (cbn [ilo ihi]; lia). cbn [bind]. reflexivity. }
-  unfold is_iframe.
-  destruct (format hdr) as [f|] eqn:Ef; cbn [bind].
-  - unfold p_prologue_k14, p_prologue_k11. apply Hk7. left. reflexivity.
-  - destruct (picture_type hdr); try reflexivity;
-      (destruct (get_last_picture s) as [lp|] eqn:El; cbn [bind]; [|reflexivity];
-       unfold p_prologue_k14, p_prologue_k11; apply Hk7; right; exists lp; split; reflexivity).
+  specialize (Hfit hdr r1 Ed). cbv zeta. unfold is_iframe.
+  destruct (has_plusptype hdr); destruct (has_opptype hdr); cbn [andb];
+    (destruct (format hdr) as [f|] eqn:Ef; [prologue_dims Hfit|]);
+    (destruct (picture_type hdr) eqn:Et; try reflexivity);
+    (destruct (get_last_picture s) as [lp|] eqn:El; [prologue_dims Hfit | reflexivity]).
 Qed.
 
 (* the model's `reconstruct` is its prologue followed by the macroblock loop and the reconstruction *)
